@@ -10,12 +10,12 @@ CHECKS = {
             "Bounded-exhaustive exploration of the real code: every (axis, start, stop, step, spelling) of the stated bounded "
             "family is executed on the working tree in lock-step with a pure-Python reference slice model; a label-slice "
             "off-by-one / wrap-around needs only a handful of labels to show, so small-scope exhaustiveness is the right level.",
-            "trusts mc/ref.py (bounding-box / strict slice rules as stated), np.arange(n)[i:j:k] for position slices; axis length <= 5, unique labels",
+            "trusts mc/ref.py (bounding-box / strict slice rules as stated), np.arange(n)[i:j:k] for position slices; axis length <= 5 (int64 / float64 labels, plus uint8 / uint64 / int8 labels on 3-label axes), unique labels",
             "explicit-state exhaustive enumeration of inputs (depth-1 model checking of the implementation against a reference model)"),
     "C04": ("DESIGN.md 5/C04",
             "All ordered pairs of a pool of small arrays (every dimension subset/order, every label relation and storage order) x 6 "
             "operators, each result recomputed per label coordinate from the operands; misalignment shows on 2-3 labels per axis.",
-            "trusts numpy ufuncs on scalars for the arithmetic itself and mc/ref.py coordinate maps; default options only; <=3 (quick) / 4 (thorough) dims",
+            "trusts numpy ufuncs on scalars for the arithmetic itself and mc/ref.py coordinate maps; default options only; <=3 (quick) / 4 (thorough) dims; axis length <= 4 plus two long axes (9 and 12 labels)",
             "explicit-state exhaustive enumeration of operand pairs executed on the implementation, coordinate-wise reference oracle"),
 }
 
